@@ -92,11 +92,19 @@ func findingWitnesses() map[string]c19In {
 	return out
 }
 
-// TestFindingWitnesses: every recorded witness must currently be a violation of the oracle.  With
-// C19_WRITE_FINDINGS=1 the witness files under /verif/findings/C19 are (re)written.
+// openFindings: not repaired in /repo (known_findings.json status "open"); all others are fixed.
+var openFindings = []string{"F06-", "F07-", "F10-", "F12-", "F18-"}
+
+// TestFindingWitnesses: the witness of every open finding must be a violation of the oracle, the
+// witness of every repaired finding must pass.  With C19_WRITE_FINDINGS=1 the witness files of the
+// open findings under /verif/findings/C19 are (re)written.
 func TestFindingWitnesses(t *testing.T) {
 	write := os.Getenv("C19_WRITE_FINDINGS") != ""
 	for name, in := range findingWitnesses() {
+		open := false
+		for _, p := range openFindings {
+			open = open || strings.HasPrefix(name, p)
+		}
 		raw, _ := json.Marshal(in)
 		var res fw.Result
 		func() {
@@ -107,6 +115,12 @@ func TestFindingWitnesses(t *testing.T) {
 			}()
 			res = check(raw)
 		}()
+		if !open {
+			if res.Verdict == fw.Violation {
+				t.Errorf("%s: repaired finding fails again: %s", name, res.Msg)
+			}
+			continue
+		}
 		if res.Verdict != fw.Violation {
 			t.Errorf("%s: witness is not a violation (verdict %q %s)", name, res.Verdict, res.Msg)
 			continue
